@@ -11,11 +11,13 @@
   * Bollinger: the model's variance is ≥ 0 so for sigma > 0 upper ≥ middle ≥ lower; StDev² ≥ 0; true range ≥ 0; CLV in [−1,1].
   The float side — rounding residue of either sign behind exact `== 0` guards — is what these theorems cannot see; the
   correspondence run tests the ranges strictly on the implementation's own values (see KNOWN_FINDINGS.txt).
-  Partial: CMF and TSI ranges, Stochastic smoothing ranges: run only.
+  Partial: ranges of the smoothed Stochastic lines and of the SMI signal line (averages of values in range): run only.
 -/
 import YataProofs.Indicators.More
 import YataProofs.Numeric.LinVol
 import YataProofs.Indicators.Keltner
+import YataProofs.Indicators.CMFRange
+import YataProofs.Numeric.TSIRange
 import YataProofs.Numeric.MeanAbsDev
 namespace Yata.C12
 open Yata Yata.Ind
@@ -83,6 +85,19 @@ theorem C12_mean_abs_dev_nonneg {P n : Nat} (v : ℚ) (hn0 : 0 < n) (hn : n ≤ 
   obtain ⟨s0, os, s', h1, h2, h3, h4⟩ := MeanAbsDev.spec (P := P) v hn0 hn xs
   exact ⟨s0, os, s', h1, h2, h3, fun i hi => (h4 i hi).2⟩
 
+/-- TSI method (hence TrueStrengthIndex / SMIErgodic value 0): in [−1, 1] on every stream, at every step -/
+theorem C12_tsi_range (short long : Nat) (hs : 0 < short) (hl : 0 < long) (v : ℚ) (xs : List ℚ) :
+    -1 ≤ Spec.tsi short long v xs ∧ Spec.tsi short long v xs ≤ 1 := tsi_range short long hs hl v xs
+
+/-- Chaikin money flow, every invariant state and every candle with low ≤ close ≤ high, volume ≥ 0: |Σ CLV·volume| ≤ Σ volume
+    over the same window, so the value is in [−1, 1] wherever the total volume is not zero -/
+theorem C12_cmf_range {P : Nat} {hist : List (Candle ℚ)} {s : CMF} (k : Candle ℚ) (h : CMF.Inv P hist s) (hk : goodCandle k) :
+    ∃ num den s', s.vals k = .ok ([.quot num den (s.size : ℚ) (s.size : ℚ) .vol [] none], s') ∧
+      CMF.Inv P (hist ++ [k]) s' ∧ s'.size = s.size ∧
+      num = ((lastN s.size (hist ++ [k])).map fun c => c.clv * c.volume).sum ∧
+      den = ((lastN s.size (hist ++ [k])).map fun c => c.volume).sum ∧
+      |num| ≤ den ∧ (den ≠ 0 → -1 ≤ num / den ∧ num / den ≤ 1) := CMF.vals_spec k h hk
+
 theorem C12_tr_nonneg (c : Candle ℚ) (p : ℚ) (h : c.low ≤ c.high) : 0 ≤ c.trClose p := tr_nonneg c p h
 
 theorem C12_clv_range (c : Candle ℚ) (h1 : c.low ≤ c.close) (h2 : c.close ≤ c.high) : -1 ≤ c.clv ∧ c.clv ≤ 1 :=
@@ -111,3 +126,5 @@ end Yata.C12
 #print axioms Yata.C12.C12_keltner_order
 #print axioms Yata.C12.C12_envelopes_order
 #print axioms Yata.C12.C12_mean_abs_dev_nonneg
+#print axioms Yata.C12.C12_tsi_range
+#print axioms Yata.C12.C12_cmf_range
